@@ -151,7 +151,11 @@ def walk_case(steps):
                                 {'hold': 0, 'idle_hold': 30, 'connect_retry': 60},
                                 {'hold': 30, 'idle_hold': 1, 'connect_retry': 40},
                                 {'hold': 3, 'idle_hold': 2, 'connect_retry': 60},
-                                {'hold': 65535, 'idle_hold': 1, 'connect_retry': 31}]),
+                                {'hold': 65535, 'idle_hold': 1, 'connect_retry': 31},
+                                # every peer message arrives in 2 / 3 TCP segments / octet by octet
+                                {'hold': 180, 'idle_hold': 30, 'connect_retry': 60, 'seg': 2},
+                                {'hold': 9, 'idle_hold': 5, 'connect_retry': 60, 'seg': 3},
+                                {'hold': 180, 'idle_hold': 30, 'connect_retry': 60, 'seg': 'bytes'}]),
         'choices': st.lists(st.integers(0, 999), min_size=steps // 2, max_size=steps)})
 
 
